@@ -1050,6 +1050,9 @@ func (s *Store[K, V]) Recover(version uint64, reader io.Reader) error {
 	s.policyMu.Lock()
 	defer s.policyMu.Unlock()
 	metaSeen := false
+	// room is tested with the cost of the entry. Once an entry does not fit its
+	// region, the rest of that region, which is older, is not loaded either.
+	windowFull, protectedFull, probationFull := false, false, false
 	for {
 		// reset block first
 		block.Data = nil
@@ -1111,7 +1114,10 @@ func (s *Store[K, V]) Recover(version uint64, reader io.Reader) error {
 				if expire != 0 && expire < s.timerwheel.clock.NowNano() {
 					continue
 				}
-				if s.policy.window.Len() < int(s.policy.window.capacity) {
+				if !windowFull && s.policy.window.Len()+int(pentry.PolicyWeight) > int(s.policy.window.capacity) {
+					windowFull = true
+				}
+				if !windowFull {
 					entry := pentry.entry()
 					s.policy.window.PushBack(entry)
 					s.insertSimple(entry)
@@ -1136,9 +1142,13 @@ func (s *Store[K, V]) Recover(version uint64, reader io.Reader) error {
 				if expire != 0 && expire < s.timerwheel.clock.NowNano() {
 					continue
 				}
-				l1 := s.policy.slru.protected
 				l2 := s.policy.slru.probation
-				if l1.len+l2.len < int64(s.policy.slru.maxsize) {
+				// the policy admits to the main region up to the size of the whole
+				// cache, so that is the room there is
+				if !probationFull && s.policy.weightedSize+uint(pentry.PolicyWeight) > s.policy.capacity {
+					probationFull = true
+				}
+				if !probationFull {
 					entry := pentry.entry()
 					l2.PushBack(entry)
 					s.insertSimple(entry)
@@ -1164,7 +1174,10 @@ func (s *Store[K, V]) Recover(version uint64, reader io.Reader) error {
 					continue
 				}
 				l := s.policy.slru.protected
-				if l.len < int64(l.capacity) {
+				if !protectedFull && l.len+pentry.PolicyWeight > int64(l.capacity) {
+					protectedFull = true
+				}
+				if !protectedFull {
 					entry := pentry.entry()
 					l.PushBack(entry)
 					s.insertSimple(entry)
